@@ -31,29 +31,9 @@ META = {
 FEATS = {"cut": 1, "ite": 1, "naf": 1, "call": 1, "arith": 1, "types": 1, "err": 1, "rec": 1, "big": 1}
 
 
-def has_cut_in_cond(t, in_cond=False):
-    """a cut lexically inside the condition of an if-then(-else), not hidden by call/1, \\+, findall.."""
-    if t[0] == "atom":
-        return in_cond and t[1] == "!"
-    if t[0] != "cmp":
-        return False
-    f, a = t[1], t[2]
-    if f == "->" and len(a) == 2:
-        return has_cut_in_cond(a[0], True) or has_cut_in_cond(a[1], in_cond)
-    if f in (",", ";") and len(a) == 2:
-        return has_cut_in_cond(a[0], in_cond) or has_cut_in_cond(a[1], in_cond)
-    return any(has_cut_in_cond(x, False) for x in a)      # arguments of call/N, \\+, once, G = Goal ...
-
-
-def failure_key(prog, q):
-    if has_cut_in_cond(q) or any(has_cut_in_cond(b) for _, b in prog):
-        return "cut-in-if-then-else-condition-is-not-local"
-    return "answers-differ"
-
-
 def run(ctx):
     rng = ctx.rng
-    nprog = ctx.scale(700, 12000)
+    nprog = ctx.scale(500, 12000)
     jobs, meta = [], {}
     dist = {"programs": 0, "regenerated_too_big": 0, "dropped_impl": 0, "dropped_model_nofuel": 0, "dropped_model_cyclic_or_unsupported": 0,
             "dropped_model_many_answers": 0, "with_exception": 0, "with_answers": 0, "no_answers": 0, "cut_in_cond_programs": 0}
@@ -118,7 +98,7 @@ def run(ctx):
         prog, queries = meta[jid]
         q, t = queries[i]
         if o[0] == "panic":
-            failures.append({"key": "panic:" + o[1][:48], "what": "query panics on a run without cyclic bindings", "input": S.program_text(prog) + "?- " + S.query_text(q, t),
+            failures.append({"key": ("one-char-atom-list-compact-string-panic" if S.uses_char_lists(prog, q) else "panic:" + o[1][:48]), "what": "query panics on a run without cyclic bindings", "input": S.program_text(prog) + "?- " + S.query_text(q, t),
                              "impl": o[1][:300], "spec": "no panic", "property_fails": True})
             continue
         if c == 1:
@@ -133,16 +113,25 @@ def run(ctx):
     for (jid, i, path, o) in bad:
         prog, queries = meta[jid]
         q, t = queries[i]
-        key = failure_key(prog, q)
+        key = S.failure_key(prog, q)
         reported.setdefault(key, [])
-        if len(reported[key]) >= 3:
+        if len(reported[key]) >= 1:
+            reported[key].append(1)
             continue
         spec = S.show_model(ctx.prop, S.program_coq(prog), q, t)
         reported[key].append(1)
-        failures.append({"key": key, "what": "ordered answers / exception of the implementation differ from ISO depth-first resolution (%s path)" % path,
+        failures.append({"key": key, "count_in_this_run": 0, "what": "ordered answers / exception of the implementation differ from ISO depth-first resolution (%s path)" % path,
                          "input": S.program_text(prog) + "?- " + S.query_text(q, t),
                          "impl": "answers=%s ball=%s" % ([S.pl(a) for a in o[1]], S.pl(o[2]) if o[2] else None), "spec": spec[:1500], "property_fails": True})
     dist["disagreements"] = len(bad)
+    dist["disagreements_by_key"] = {k: len(v) for k, v in reported.items()}
+    seenp = set()
+    fl = []
+    for f in failures:          # one report per panic key
+        if f["key"] in seenp and "panic" in f["key"]:
+            continue
+        seenp.add(f["key"]); fl.append(f)
+    failures = fl
     samples = []
     for j in jobs[:3]:
         prog, queries = meta[j["id"]]
